@@ -10,7 +10,8 @@ FuncRef = namedtuple("FuncRef", "name")
 
 # platform constants of the standard library (POSIX values; gwf drives POSIX schedulers)
 EXTERNAL_CONSTANTS = {"os.curdir": ".", "os.pardir": "..", "os.sep": "/", "os.path.sep": "/", "os.linesep": "\n", "os.devnull": "/dev/null", "os.extsep": ".", "os.pathsep": ":",
-                      "os.path.curdir": ".", "os.path.pardir": "..", "datetime.timezone.utc": __import__("datetime").timezone.utc, "datetime.UTC": __import__("datetime").timezone.utc,
+                      "os.path.curdir": ".", "os.path.pardir": "..", "math.inf": float("inf"), "math.nan": float("nan"), "math.pi": 3.141592653589793, "math.e": 2.718281828459045,
+                      "datetime.timezone.utc": __import__("datetime").timezone.utc, "datetime.UTC": __import__("datetime").timezone.utc,
                       **{f"os.{n_}": getattr(__import__("os"), n_) for n_ in ("O_RDONLY", "O_WRONLY", "O_RDWR", "O_CREAT", "O_EXCL", "O_TRUNC", "O_APPEND", "O_CLOEXEC", "O_NOFOLLOW")},
                       **{f"stat.{n_}": getattr(__import__("stat"), n_) for n_ in ("S_IRUSR", "S_IWUSR", "S_IRGRP", "S_IROTH", "S_IRWXU")}}
 
